@@ -971,6 +971,9 @@ class Interp:
                         return h(self, container, x)
                     # an unknown value against known members: either way
                     return Sym('bool', z3.Bool(self.run.fresh_name('opaque_member')))
+                if isinstance(container, (list, tuple)) and all(isinstance(k, (int, str, bytes, bool, type(None), Opaque)) for k in container):
+                    # unknown value against unknown members (none of them the same object): either way
+                    return Sym('bool', z3.Bool(self.run.fresh_name('opaque_member')))
                 raise Unsupported('membership of opaque value')
             return any(same(k) for k in container)
         keys = list(container.keys()) if isinstance(container, dict) else list(container)
